@@ -91,8 +91,16 @@ def gen_filter(rng, partitioned, nrows):
         return [['uid', 'in', sorted(rng.sample(range(max(4, nrows)), 3))]]
     if r < 0.75:
         return [[['uid', '<', nrows // 3]], [['uid', '>', 2 * nrows // 3]]]
-    if r < 0.85 and partitioned:
+    if r < 0.82 and partitioned:
         return [['p', '==', rng.choice(('a', 'b'))]]
+    if r < 0.9:
+        # converted-type columns: the decoded min/max are memoised on the
+        # shared statistics objects
+        base = 1_500_000_000_000_000_000
+        return [['d', rng.choice(('>', '<', '>=')),
+                 {'ts': base + rng.randrange(-10 ** 18, 10 ** 18)}]]
+    if r < 0.95:
+        return [['s', rng.choice(('>=', '<', '!=')), rng.choice(F.TEXT)]]
     return [['f', '>', 0.0], ['uid', '>=', rng.randrange(0, max(2, nrows))]]
 
 
@@ -263,13 +271,20 @@ def canon_result(x):
     return c if c is None or c[0] != '?' else ['repr', str(x)]
 
 
+def _cond(c):
+    v = c[2]
+    if isinstance(v, dict) and 'ts' in v:
+        v = pd.Timestamp(v['ts'])
+    return (c[0], c[1], v)
+
+
 def tup(f):
     """JSON lists -> filter tuples."""
     if f is None:
         return None
     if f and isinstance(f[0], list) and f[0] and isinstance(f[0][0], list):
-        return [[tuple(c) for c in g] for g in f]
-    return [tuple(c) for c in f]
+        return [[_cond(c) for c in g] for g in f]
+    return [_cond(c) for c in f]
 
 
 def run_op(pf, op):
